@@ -256,6 +256,9 @@ func directiveSecRequestBodyLimit(options *DirectiveOptions) error {
 	if err != nil {
 		return err
 	}
+	if limit < 0 {
+		return errors.New("request body limit should not be negative")
+	}
 	options.WAF.RequestBodyLimit = limit
 	return nil
 }
@@ -538,6 +541,9 @@ func directiveSecResponseBodyLimit(options *DirectiveOptions) error {
 	if err != nil {
 		return err
 	}
+	if limit < 0 {
+		return errors.New("response body limit should not be negative")
+	}
 	options.WAF.ResponseBodyLimit = limit
 	return nil
 }
@@ -578,6 +584,9 @@ func directiveSecRequestBodyInMemoryLimit(options *DirectiveOptions) error {
 	limit, err := strconv.ParseInt(options.Opts, 10, 64)
 	if err != nil {
 		return err
+	}
+	if limit < 0 {
+		return errors.New("request body in-memory limit should not be negative")
 	}
 	options.WAF.SetRequestBodyInMemoryLimit(limit)
 	return nil
@@ -1073,6 +1082,9 @@ func directiveSecRequestBodyNoFilesLimit(options *DirectiveOptions) error {
 	limit, err := strconv.ParseInt(options.Opts, 10, 64)
 	if err != nil {
 		return err
+	}
+	if limit < 0 {
+		return errors.New("request body no-files limit should not be negative")
 	}
 	options.WAF.RequestBodyNoFilesLimit = limit
 	return nil
